@@ -100,6 +100,15 @@ def catalogue(rng, thorough=False):
             done.add(name)
         except TypeError:
             pass
+    # keyword-argument constructions (CachedClass keys on args AND kwargs)
+    add('HGate(radix=3)', lambda: G.HGate(radix=3))
+    add('ShiftGate(radix=3)', lambda: G.ShiftGate(radix=3))
+    add('CSUMGate(radix=4)', lambda: G.CSUMGate(radix=4))
+    add('IdentityGate(num_qudits=2,radixes=(2,3))',
+        lambda: G.IdentityGate(num_qudits=2, radixes=(2, 3)))
+    add('MPRYGate(3,target_qubit=1)', lambda: G.MPRYGate(3, target_qubit=1))
+    add('PDGate(index=1,radix=3)', lambda: G.PDGate(index=1, radix=3))
+    add('SwapGate(radix=3)', lambda: G.SwapGate(radix=3))
     # explicit constructions for the rest
     s1 = rng.randrange(10 ** 6)
 
